@@ -25,6 +25,8 @@ NONSTR = None  # travels as JSON null; the implementation side gets the int 7
 ALPHA = ["MATCH", "match", "MaTcH", "CREATE", "allow", "Require", "DISALLOW", "modify", "Delete",
          "IN", "in", "WITH", "wiTh", "FROM", "from", "MATERIALS", "products", "Products",
          "foo", "a/*.py", "", NONSTR, "İN", "ın", "MATCHK", "froḿ"]
+ODD_OPERANDS = ["./dist", "dist/", "out//bin", "src/../lib", "a\\b", " lead", "trail ", "*", "**/x", "caf\u00e9", "cafe\u0301",
+                "UPPER", "in", "With", ".", "..", "/abs", "a b", "{x}", "%s", "dist", "lib/"]
 SMALL = ["MATCH", "match", "CREATE", "IN", "with", "FROM", "PRODUCTS", "foo", "", NONSTR]
 SHAPES = [
     ["CREATE", "p"], ["MODIFY", "p"], ["DELETE", "p"], ["ALLOW", "p"], ["DISALLOW", "p"],
@@ -265,6 +267,17 @@ def shard_structured(seed, idx, n_double, n_random):
             res.case({"rule": js, "impl": i, "model": m}, False, i == m)
             if i != m:
                 res.fail("disagree", {"op": "unpack_rule", "rule": js}, {"op": "unpack_rule", "impl": i, "model": m})
+    # the documented shapes with operands spelled unusually (not normalised, with blanks, upper case, keywords as
+    # operands, two Unicode forms of one name): parsed, written back and parsed again they mean what is written
+    rules = []
+    for s in SHAPES:
+        for _ in range(6 if idx else 12):
+            r = list(s)
+            for k, t in enumerate(s):
+                if t in ("p", "src", "dst", "s"):
+                    r[k] = rng.choice(ODD_OPERANDS)
+            rules.append(r)
+    check_rules(rules, res, rng, "shape")
     rules = []
     for _ in range(n_double):
         s = list(rng.choice(SHAPES))
